@@ -103,6 +103,22 @@ BLOCKS = [
   "the X STEP AS TRANSLATED (Gen/G_admm_x.v; facts: Proofs/GenEquivGU.v): x_update_prox(S, reinflate(z - u), rho) and nothing else",
   [("C03_code_x_step", "admm_x_returns")]),
 ]
+BLOCKS += [
+ ("C13", "SkelCO13", "GenEquivCO", ["cp_init", "cp_empty", "cp_shallow", "cp_deep", "st_init", "st_empty", "st_shallow", "st_deep"],
+  "the STATE CONTAINERS AS TRANSLATED in skeleton mode (Gen/G_cp_*.v, Gen/G_st_*.v; facts: Proofs/GenEquivCO.v): the constructor of\n   ClusterParameters stores `sorted` of the member list it is given; a SHALLOW copy hands every field on as it is (the state's only\n   call is list(clusters): a new outer list of the same cluster objects); a DEEP copy passes every array field through np.copy, the\n   member list and the label list through list(), the clusters through their own deep_copy and the arguments through theirs - no\n   array, list or container field of the copy is the source's own field; only the immutable numbers are handed on",
+  [("C13_code_cluster_constructor", "cp_init_returns"), ("C13_code_cluster_empty", "cp_empty_returns"), ("C13_code_cluster_shallow_copy", "cp_shallow_returns"),
+   ("C13_code_cluster_deep_copy", "cp_deep_returns"), ("C13_code_state_constructor", "st_init_returns"), ("C13_code_state_empty", "st_empty_returns"),
+   ("C13_code_state_shallow_copy", "st_shallow_returns"), ("C13_code_state_deep_copy", "st_deep_returns")]),
+ ("C13", "SkelAR13", "GenEquivAR", ["ua_shallow", "ua_deep"],
+  "the USER ARGUMENTS' copies AS TRANSLATED (Gen/G_ua_*.v; facts: Proofs/GenEquivAR.v): the deep copy is the shallow copy with the two\n   fields that may be arrays (sparsity weight, switching cost) replaced by copy.deepcopy OF THE SOURCE'S OWN fields",
+  [("C13_code_arguments_shallow_copy", "ua_shallow_returns"), ("C13_code_arguments_deep_copy", "ua_deep_returns")]),
+ ("C08", "SkelAR08", "GenEquivAR", ["cm_ranked"],
+  "the RANKING OF DONORS AS TRANSLATED (Gen/G_cm_ranked.v; facts: Proofs/GenEquivAR.v): `sorted`, descending, of exactly the candidates\n   selected by  size >= 2 * min_cluster_size  on the model given, keyed by a function of the spreads computed on that same model",
+  [("C08_code_ranked_donors", "ranked_returns")]),
+ ("C02", "SkelAR02", "GenEquivAR", ["aa_shallow", "aa_deep"],
+  "the SOLVER'S ARGUMENT BUNDLE AS TRANSLATED (Gen/G_aa_*.v; facts: Proofs/GenEquivAR.v): a copy hands all nine fields on unchanged, in\n   their own slots (its deep copy IS its shallow copy: a matrix-valued sparsity weight would be shared - the library never calls it)",
+  [("C02_code_bundle_shallow_copy", "aa_shallow_returns"), ("C02_code_bundle_deep_copy", "aa_deep_returns")]),
+]
 for prop, sec, pf, mods, comment, thms in BLOCKS:
     p = "%s/Properties/%sgen.v" % (COQ, prop)
     s = open(p).read()
